@@ -41,6 +41,9 @@ type vE2ESpec struct {
 	ProbeErr func(ip string, port uint16) error
 	// ProbeDelay makes an application-scan probe last that long on the virtual clock (cut short by cancellation)
 	ProbeDelay func(ip string, port uint16, nth int) time.Duration
+	// RealSocks: `sx socks` runs the real socks5 scanner (on the virtual TCP network of the world)
+	// instead of the recording scanner
+	RealSocks bool
 }
 
 type vProbe struct {
@@ -273,7 +276,7 @@ func (s *vRecScanner) Scan(ctx context.Context, r *scan.Request) (scan.Result, e
 }
 
 func verifSocksScanner(opts ...socks5.ScannerOption) scan.Scanner {
-	if vE2ECur == nil {
+	if vE2ECur == nil || vE2ECur.Spec.RealSocks {
 		return socks5.NewScanner(opts...)
 	}
 	return &vRecScanner{kind: "socks"}
